@@ -184,8 +184,18 @@ def rule_forward(prog: Program, modules: Optional[Set[str]] = None) -> List[Inst
         for nf in fi.nested.values():
             for call, callee in prog.callees(nf):
                 by_callee.setdefault(callee.qual, []).append((call, callee))
+        # a callee bound with functools.partial in this function receives (some of) its options at the later call of the
+        # partial object, which is not a call site of the callee: not decided here
+        via_partial: Set[str] = set()
+        for g_ in [fi] + list(fi.nested.values()):
+            for n_ in walk_own(g_.node):
+                if isinstance(n_, ast.Call) and call_name(n_) == "partial" and n_.args:
+                    for t_ in prog.resolve_callee_expr(n_.args[0], g_):
+                        via_partial.add(t_.qual)
         for cq, sites in sorted(by_callee.items()):
             callee = sites[0][1]
+            if cq in via_partial:
+                continue
             if callee.name == "__init__" and callee.cls is not None and callee.cls.name in ("MPUChunk",):
                 continue
             cps = _callee_param_names(callee)
@@ -246,7 +256,15 @@ def rule_option_keys(prog: Program) -> List[Instance]:
             popped = {e.value for e in n.iter.elts if isinstance(e, ast.Constant)}
     accepted = {p.arg for p in co.args.kwonlyargs}
     ok = packed == popped == accepted and wired_ok and bool(packed)
-    out.append(Instance("R-FORWARD", "_xr_interop:xr_reproject#option-keys", OK if ok else BAD,
+    if not popped:
+        # the extractor may name its keys in a module constant / comprehension instead of a for-loop over a literal tuple
+        popped = {c_.value for n_ in walk_own(ex.node) if isinstance(n_, (ast.DictComp, ast.ListComp, ast.GeneratorExp)) for g_ in n_.generators
+                  for c_ in (g_.iter.elts if isinstance(g_.iter, (ast.Tuple, ast.List)) else []) if isinstance(c_, ast.Constant)}
+        ok = packed == popped == accepted and wired_ok and bool(packed)
+    if not popped:
+        out.append(Instance("R-FORWARD", "_xr_interop:xr_reproject#option-keys", UNDET, "the option extractor does not list its keys in a literal tuple this clause reads", xr.where()))
+    else:
+      out.append(Instance("R-FORWARD", "_xr_interop:xr_reproject#option-keys", OK if ok else BAD,
                         f"the {len(packed)} geobox options are packed, extracted and accepted under the same names" if ok
                         else f"option tables disagree: packed {sorted(packed)}, extracted {sorted(popped)}, accepted by compute_output_geobox {sorted(accepted)}, straight={wired_ok}", xr.where()))
     # ODCExtension.output_geobox forwards **kw to compute_output_geobox(gbox, crs, **kw)
@@ -259,6 +277,12 @@ def rule_option_keys(prog: Program) -> List[Instance]:
         a = any(isinstance(n, ast.Call) and call_name(n) == "output_geobox" and n.args and short(n.args[0]) == "how" and any(k.arg is None and short(k.value) == "kw_gbox" for k in n.keywords) for _g, n in prog.closure_nodes(f))
         inner = [f] + list(f.nested.values())
         b = any(isinstance(n, ast.Call) and call_name(n) in ("rio_reproject", "_dask_rio_reproject", "_xr_reproject_da") and any(k.arg is None and short(k.value) == "kw" for k in n.keywords) for g in inner for n in walk_own(g.node))
+        # the warp options may be bundled into one object and bound with functools.partial / handed to a helper: not followed
+        bundled = any(isinstance(n, ast.Call) and call_name(n) == "partial" for g, n in prog.closure_nodes(f)) or any(
+            isinstance(n, ast.Call) and any(k.arg is None and short(k.value) != "kw" for k in n.keywords) and call_name(n) in ("rio_reproject", "_dask_rio_reproject", "_xr_reproject_da") for g, n in prog.closure_nodes(f))
+        if a and not b and bundled:
+            out.append(Instance("R-FORWARD", f"{q}#kw-split", UNDET, "warp options are bundled (partial / options object) before they reach the warp: not followed", f.where()))
+            continue
         out.append(Instance("R-FORWARD", f"{q}#kw-split", OK if a and b else BAD,
                             "geobox options -> output_geobox(how, **kw_gbox); remaining options -> warp(**kw)" if a and b else f"option split broken (geobox options forwarded={a}, warp options forwarded={b})", f.where()))
         for kw in ("resampling", "dst_nodata"):
